@@ -56,7 +56,7 @@ Theorem C02_encode_resets : forall gz gunzip inflate l r, not_gzip r ->
 Proof. exact encode_resets. Qed.
 Print Assumptions C02_encode_resets.
 
-Theorem C02_set_text_resets : forall t r r0, set_text t r = (r0, None) -> cl_inv r0.
+Theorem C02_set_text_resets : forall c t r r0, set_text c t r = (r0, None) -> cl_inv r0.
 Proof. exact set_text_resets. Qed.
 Print Assumptions C02_set_text_resets.
 
@@ -154,17 +154,18 @@ Theorem C02_readback_app_iter : forall gz gunzip inflate md5b64 uj c a r ops,
 Proof. exact readback_app_iter. Qed.
 Print Assumptions C02_readback_app_iter.
 
-(* .text reads back the text last assigned (utf-8, latin-1 and ascii codecs are concrete in the model,
+(* .text reads back the text last assigned, encoded with the Content-Type's charset or else the class's
+   default_body_encoding (utf-8, latin-1 and ascii codecs are concrete in the model,
    UTF-8 proved against the strict CPython decoder), whatever operations that keep body and
    Content-Type happened since *)
 Theorem C02_readback_text : forall gz gunzip inflate md5b64 uj c t r r0 ops,
-  set_text t r = (r0, None) -> Forall keeps_text ops ->
-  snd (get_text (run_ops gz gunzip inflate md5b64 uj c ops r0)) = Ok t.
+  set_text c t r = (r0, None) -> Forall keeps_text ops ->
+  snd (get_text c (run_ops gz gunzip inflate md5b64 uj c ops r0)) = Ok t.
 Proof. exact readback_text. Qed.
 Print Assumptions C02_readback_text.
 
 Example C02_set_text_satisfiable :
-  exists r0, set_text [233; 8364] (mkR (s2l "200 OK") [(N_CT, s2l "text/html; charset=UTF-8")] (AList [[]]) false)
+  exists r0, set_text (mkCfg None None false (Some (s2l "latin-1"))) [233; 8364] (mkR (s2l "200 OK") [(N_CT, s2l "text/html; charset=UTF-8")] (AList [[]]) false)
              = (r0, None).
 Proof. eexists. vm_compute. reflexivity. Qed.
 
